@@ -34,8 +34,8 @@ func init() {
 	fw.Register(&fw.Prop{
 		ID:    "C15",
 		Level: "exploration",
-		Rule: "cases = (a) 1-16 concurrent Ping calls on a library endpoint whose frames a raw peer answers per ping with one of {own pong, withheld, foreign payload, duplicated, late} in fifo / lifo / random order plus unsolicited pongs, withheld pings ended by context cancellation or connection close; decided on a logical-clock event log (call, pong sent, cancel, return); " +
-			"(b) raw peer pings with every payload length 0..125 placed before, between and inside fragmented (compressed) messages, read by CloseRead or an explicit reader, Pong payload sequence compared. distinct key = (kind, role, reader, policy mix, order, ender / placement, agreement)",
+		Rule: "cases = (a) 1-16 concurrent Ping calls on a library endpoint whose frames a raw peer answers per ping with one of {own pong, withheld, foreign payload, duplicated, late} in fifo / lifo / random order (foreign payloads include other spellings of the same number) plus unsolicited pongs, withheld pings ended by context cancellation or connection close; decided on a logical-clock event log (call, pong sent, cancel, return); " +
+			"(b) raw peer pings with every payload length 0..125 placed before, between and inside fragmented (compressed) messages, read by CloseRead or an explicit reader, Pong payload sequence compared; (c) a Pong that arrives 5.5 s after the Ping, well inside the Ping's own 20 s context. distinct key = (kind, role, reader, policy mix, order, ender / placement, agreement)",
 		Gen:         c15Gen,
 		Race:        func(t string) bool { return t == "thorough" },
 		InChild:     func(string) int { return 4 },
